@@ -821,22 +821,29 @@ def r14d(R):
 
 
 # ---------------------------------------------------------------- R15.g
+def _clip_fact_of(n):
+    """(field, ('>=' | '<=', bound text)) for a statement
+    `<p>.field = max(<p>.field, K)` / `min(<p>.field, K)`, else None."""
+    if not (isinstance(n, ast.Assign) and isinstance(n.targets[0], ast.Attribute)
+            and isinstance(n.value, ast.Call) and norm(n.value.func) in ('max', 'min')
+            and len(n.value.args) == 2):
+        return None
+    tgt = norm(n.targets[0])
+    args = [norm(a) for a in n.value.args]
+    if tgt not in args:
+        return None
+    other = args[1 - args.index(tgt)].replace('self._', 'self.')
+    return n.targets[0].attr, ('>=' if norm(n.value.func) == 'max' else '<=',
+                               other.replace(' ', ''))
+
+
 def _clip_facts(A, g):
-    """{field: ('>=', text) | ('<=', text)} established by a clipping helper:
-    statements `<p>.field = max(<p>.field, K)` / `min(<p>.field, K)`."""
+    """facts established by a clipping helper (all its statements)"""
     facts = {}
     for n in walk_own(g.node):
-        if not (isinstance(n, ast.Assign) and isinstance(n.targets[0], ast.Attribute)
-                and isinstance(n.value, ast.Call) and norm(n.value.func) in ('max', 'min')
-                and len(n.value.args) == 2):
-            continue
-        tgt = norm(n.targets[0])
-        args = [norm(a) for a in n.value.args]
-        if tgt not in args:
-            continue
-        other = args[1 - args.index(tgt)].replace('self._', 'self.')
-        facts[n.targets[0].attr] = (
-            '>=' if norm(n.value.func) == 'max' else '<=', other.replace(' ', ''))
+        got = _clip_fact_of(n)
+        if got:
+            facts[got[0]] = got[1]
     return facts
 
 
@@ -865,19 +872,30 @@ def r15g(R):
         if not loops or not indexed:
             continue
         n_methods += 1
-        clips = []
+        # where each of the four bounds is established: a helper call that
+        # sets all of them, or the statements themselves (helper expanded)
+        per_field = {k: [] for k in want}
         for n in mcfg.nodes:
             for c in n.calls():
                 for g in A.callees(m, c):
                     f = _clip_facts(A, g)
-                    if all(f.get(k) == v for k, v in want.items()):
-                        clips.append(n)
+                    for k, v in want.items():
+                        if f.get(k) == v:
+                            per_field[k].append(n)
+            if n.kind == 'stmt':
+                got = _clip_fact_of(n.ast)
+                if got and want.get(got[0]) == got[1]:
+                    per_field[got[0]].append(n)
         norm_nodes = A.calls_nodes(m, 'ColorMatrix._normalize_rect')
-        ok = bool(clips) and \
-            mcfg.find_path([mcfg.entry], lambda n: n in loops, avoid=clips) is None \
-            and (not norm_nodes or mcfg.find_path(
-                [x for n in clips for x, _l in n.succs],
-                lambda n: n in norm_nodes) is None)
+        ok = True
+        for k, nodes in per_field.items():
+            if not nodes or mcfg.find_path(
+                    [mcfg.entry], lambda n: n in loops, avoid=nodes) is not None:
+                ok = False
+            if norm_nodes and nodes and mcfg.find_path(
+                    [x for n in nodes for x, _l in n.succs],
+                    lambda n: n in norm_nodes) is not None:
+                ok = False
         R.check(m, '%s: rectangle clipped to 0..height-1 / 0..width-1 before '
                 'the cell loops' % name, ok,
                 'the rows and columns the script supplied index the cell store '
